@@ -120,7 +120,7 @@ def sem_part(tier, tag):
     n = len(frag)
     rng = random.Random(vlib.seed())
     allpairs = [(a, b) for a in range(1, n + 1) for b in range(1, n + 1)]
-    pairs = rng.sample(allpairs, min(len(allpairs), 2400 if tier == "quick" else 12000))
+    pairs = rng.sample(allpairs, min(len(allpairs), 1500 if tier == "quick" else 8000))
     src = semlib.program(frag, env)
     nsh = 12
     d = os.path.join(vlib.WORK, tag)
@@ -133,23 +133,42 @@ def sem_part(tier, tag):
     def batch(k):
         mine = pairs[k::nsh]
         ops, dump = [], set()
+
+        def four(x, y, sfx):
+            ops.extend([{"op": "union", "a": x, "b": y, "as": f"U{sfx}"}, {"op": "intersect", "a": x, "b": y, "as": f"I{sfx}"},
+                        {"op": "diff", "a": x, "b": y, "as": f"D{sfx}"}, {"op": "complement", "a": x, "as": f"C{sfx}"}])
+            dump.update({x, y, f"U{sfx}", f"I{sfx}", f"D{sfx}", f"C{sfx}"})
+
         for j, (a, b) in enumerate(mine):
-            ops += [{"op": "union", "a": f"X{a}", "b": f"X{b}", "as": f"U{j}"}, {"op": "intersect", "a": f"X{a}", "b": f"X{b}", "as": f"I{j}"},
-                    {"op": "diff", "a": f"X{a}", "b": f"X{b}", "as": f"D{j}"}, {"op": "complement", "a": f"X{a}", "as": f"C{j}"}]
-            dump |= {f"X{a}", f"X{b}", f"U{j}", f"I{j}", f"D{j}", f"C{j}"}
+            four(f"X{a}", f"X{b}", f"{j}")
+            # derived operands: results of the engine's own operations (complements) are operands again, so that every
+            # polarity of the literal lists (allowed / excluded) meets every other
+            ops.append({"op": "complement", "a": f"X{b}", "as": f"N{j}"})
+            four(f"X{a}", f"N{j}", f"{j}p")
+            four(f"C{j}", f"X{b}", f"{j}q")
+            four(f"C{j}", f"N{j}", f"{j}r")
         r = semlib.semtool({"id": k, "kind": "sem", "files": [["entry.ts", src]], "names": [f"X{i}" for i in range(1, n + 1)],
-                            "ops": ops, "dump": sorted(dump), "materialize": []}, timeout=600)
+                            "ops": ops, "dump": sorted(dump), "materialize": []}, timeout=900)
         if r.get("outcome") != "ok":
             raise ToolError(f"semtool failed on the C06 batch: {str(r)[:400]}")
+        okof = {o["as"]: res["ok"] for o, res in zip(ops, r["results"])}
         lines = [{"ev": "atoms", "atoms": r["atoms"]}]
         for j, (a, b) in enumerate(mine):
             if f"X{a}" not in r["dumps"] or f"X{b}" not in r["dumps"]:
                 continue          # the engine declines to convert this operand (recursive alias over a union)
-            def res(name, idx):
-                ok = r["results"][4 * j + idx]["ok"] and name in r["dumps"]
+
+            def res(name):
+                ok = okof.get(name, False) and name in r["dumps"]
                 return {"ok": ok, "st": r["dumps"].get(name, {"all": [], "sub": []})}
-            lines.append({"ev": "pair", "ia": a, "ib": b, "a": r["dumps"][f"X{a}"], "b": r["dumps"][f"X{b}"],
-                          "u": res(f"U{j}", 0), "i": res(f"I{j}", 1), "d": res(f"D{j}", 2), "c": res(f"C{j}", 3)})
+
+            def line(x, y, sfx, der):
+                return {"ev": "pair", "ia": a, "ib": b, "der": der, "a": r["dumps"][x], "b": r["dumps"][y],
+                        "u": res(f"U{sfx}"), "i": res(f"I{sfx}"), "d": res(f"D{sfx}"), "c": res(f"C{sfx}")}
+            lines.append(line(f"X{a}", f"X{b}", f"{j}", "A,B"))
+            if okof.get(f"N{j}") and okof.get(f"C{j}") and f"N{j}" in r["dumps"] and f"C{j}" in r["dumps"]:
+                lines.append(line(f"X{a}", f"N{j}", f"{j}p", "A,not B"))
+                lines.append(line(f"C{j}", f"X{b}", f"{j}q", "not A,B"))
+                lines.append(line(f"C{j}", f"N{j}", f"{j}r", "not A,not B"))
         return lines
 
     import concurrent.futures as cf
@@ -180,15 +199,16 @@ def sem_part(tier, tag):
             tstates += tr["distinct"]
             for j in vlib.tagged_lines(tr["lines"], "JUDGED"):
                 e = traces[k][j["line"] - 1]
-                key = (j["kind"], e["ia"], e["ib"])
+                key = (j["kind"], e["ia"], e["ib"], e["der"])
                 if key in seen or len(violations) >= 20:
                     continue
                 seen.add(key)
                 payload = {"property": "C06", "layer": "semtype", "complaint": j["kind"], "A": vlib.ts(frag[e["ia"] - 1]), "B": vlib.ts(frag[e["ib"] - 1]),
+                           "operands": e["der"],
                            "declarations": [f"type {x['n']} = {vlib.ts(x['ty'])};" for x in env],
                            "dumps": {x: e[x] for x in ("a", "b", "u", "i", "d", "c")}, "atoms": traces[k][0]["atoms"]}
                 violations.append((vlib.write_replay("C06", f"{tier}-s{len(violations)}", payload),
-                                   f"semtype: {j['kind']}  A = {vlib.ts(frag[e['ia'] - 1])}  B = {vlib.ts(frag[e['ib'] - 1])}"))
+                                   f"semtype: {j['kind']}  operands ({e['der']})  A = {vlib.ts(frag[e['ia'] - 1])}  B = {vlib.ts(frag[e['ib'] - 1])}"))
     # negative control: swap the diff result with the intersection result
     base = next(e for e in traces[0][1:] if e["d"]["st"] != e["i"]["st"])
     bad = copy.deepcopy(base)
